@@ -425,11 +425,13 @@ class Simulator(EventProducer, SimulatorInterface, Generic[TIME]):
         if self._simulator_time > self._replication.end_sim_time:
             raise DSOLError("cannot start: simulator_time > run length")
         try:
+            # the simulator is running before the first notification is fired, 
+            # so a command issued by a listener is refused
+            self._run_state = RunState.STARTED
             if self._replication_state == ReplicationState.INITIALIZED:
                 self.fire_timed(self._simulator_time,
                     ReplicationInterface.START_REPLICATION_EVENT, None)
                 self._replication_state = ReplicationState.STARTED
-            self._run_state = RunState.STARTED
             self.fire_timed(self._simulator_time,
                             Simulator.START_EVENT, None)
             self._step_impl()
